@@ -552,6 +552,9 @@ func runReplay(bin, dir, rfile string, idx int, timeout time.Duration) string {
 	cmd.Env = append(os.Environ(), "VERIF_REPLAY="+rfile, fmt.Sprintf("VERIF_REPLAY_INDEX=%d", idx), "HOME="+td, "XDG_CONFIG_HOME="+td, "VERIF_TMP="+td)
 	tStart := time.Now()
 	b, err := cmd.CombinedOutput()
+	if os.Getenv("VERIF_TRACE") != "" {
+		os.Stderr.Write(b)
+	}
 	timedOut := time.Since(tStart) >= timeout-500*time.Millisecond
 	txt := string(b)
 	var viol []string
